@@ -158,6 +158,8 @@ pub struct NormTree {
     /// texts of up to this many symbols are also normalised behind long runs of unrelated characters whose length
     /// (in characters and in bytes) lies around the powers of two from 64 to 1024 (thorough: 16384)
     pub padded_len: usize,
+    /// paddings up to 16384 instead of 1024
+    pub padded_deep: bool,
 }
 
 /// (description, padding) - paddings of 1-, 3-byte and upper-case (general path) characters that are no table key
@@ -218,7 +220,7 @@ impl Space for NormTree {
                 }
             }
             if s.len() <= self.padded_len && !s.is_empty() {
-                for (what, pad) in paddings(self.padded_len > 2).iter() {
+                for (what, pad) in paddings(self.padded_deep).iter() {
                     let long = format!("{}{}", pad, text);
                     let expected_long = (self.reference)(&long);
                     o.evaluations += 1;
@@ -323,7 +325,7 @@ pub fn main(tier: Tier, replay: Option<String>) -> i32 {
         let bounds = tier.pick(TreeBounds { full_len: 4, ext_len: 7, max_special: 2 }, TreeBounds { full_len: 6, ext_len: 9, max_special: 2 });
         let b = bounds.to_json();
         jobs.push(job(
-            NormTree { label: format!("table-{}", name), worlds: vec![w1, w2], alpha: alpha.clone(), bounds, reference: Box::new(move |s| table.normalize(s)), used_buffer_len: 3, padded_len: tier.pick(2, 3) },
+            NormTree { label: format!("table-{}", name), worlds: vec![w1, w2], alpha: alpha.clone(), bounds, reference: Box::new(move |s| table.normalize(s)), used_buffer_len: 3, padded_len: 2, padded_deep: tier == Tier::Thorough },
             Strategy::Dfs,
             Some(tier.pick(40, 1200)),
             b,
@@ -346,7 +348,8 @@ pub fn main(tier: Tier, replay: Option<String>) -> i32 {
                     bounds,
                     reference: Box::new(move |s| ref_prolonged(&mc, &repl, s)),
                     used_buffer_len: 3,
-                    padded_len: tier.pick(1, 3),
+                    padded_len: tier.pick(1, 2),
+                    padded_deep: tier == Tier::Thorough,
                 },
                 Strategy::Dfs,
                 Some(tier.pick(30, 900)),
@@ -383,7 +386,8 @@ pub fn main(tier: Tier, replay: Option<String>) -> i32 {
                         )
                     }),
                     used_buffer_len: 3,
-                    padded_len: tier.pick(1, 3),
+                    padded_len: tier.pick(1, 2),
+                    padded_deep: tier == Tier::Thorough,
                 },
                 Strategy::Dfs,
                 Some(tier.pick(30, 900)),
@@ -432,7 +436,8 @@ pub fn main(tier: Tier, replay: Option<String>) -> i32 {
                     t
                 }),
                 used_buffer_len: 3,
-                padded_len: tier.pick(2, 3),
+                padded_len: 2,
+                padded_deep: tier == Tier::Thorough,
             },
             Strategy::Dfs,
             Some(tier.pick(40, 900)),
